@@ -131,6 +131,30 @@ pub fn cases() -> Vec<Case> {
             }
         }
     }
+    // aggregates of 4..17 arguments: an overflow (or an ill-typed argument) at every pair of
+    // positions (anything that adds or multiplies in blocks has a block boundary in here)
+    for n in [4usize, 5, 6, 7, 8, 9, 12, 16, 17] {
+        for i in 0..n {
+            for j in 0..n {
+                if i == j {
+                    continue;
+                }
+                for (f, neutral, big, bump) in [("sum", d("0"), Value::Number(Decimal::MAX), d("1")), ("mul", d("1"), Value::Number(Decimal::MAX), d("2")), ("sum", d("0"), Value::Number(Decimal::MIN), d("-1"))] {
+                    let mut args: Vec<Value> = (0..n).map(|_| neutral.clone()).collect();
+                    args[i] = big.clone();
+                    args[j] = bump.clone();
+                    out.push(Case { program: format!("{}({})", f, args.iter().map(as_expr).collect::<Vec<_>>().join(", ")), bindings: vec![], key: format!("{}{}:overflow:{}@{}+{}@{}", f, n, class(&big), i, class(&bump), j), lenient_err: false });
+                }
+                if j == i + 1 || j == 0 {
+                    let mut args: Vec<Value> = (0..n).map(|k| d(&k.to_string())).collect();
+                    args[i] = Value::Bool(true);
+                    for f in ["sum", "mul", "min", "max"] {
+                        out.push(Case { program: format!("{}({})", f, args.iter().map(as_expr).collect::<Vec<_>>().join(", ")), bindings: vec![], key: format!("{}{}:ill-typed@{}", f, n, i), lenient_err: false });
+                    }
+                }
+            }
+        }
+    }
     // every operator x every wrongly (and rightly) typed operand pair
     let v = alphabet();
     for op in ALL_INFIX {
@@ -150,6 +174,7 @@ pub fn cases() -> Vec<Case> {
             out.push(Case { program: format!("a {}", op), bindings: bind(&["a"], &[a]), key: format!("postfix{}:{}", op, class(a)), lenient_err: false });
         }
     }
+    out.extend(super::c03::unary_compositions(&v));
     out
 }
 
